@@ -30,6 +30,7 @@ ALLOW = {
     ("cs", "CS", "ledger.zc"): "no zero-sized values in the change-set experiments",
     ("cs", "CS", "ledger.zharn"): "no zero-sized values in the change-set experiments",
     ("cs", "CS", "ledger.zlib"): "no zero-sized values in the change-set experiments",
+    ("world", "Prealloc", "n"): "the number of entities created up front is an input of the script (it only raises the bound on indices used for C17)",
     ("world", "Created", "with"): "the components a builder attaches are an input of the event, the sweep checks the outcome",
     ("world", "Created", "obs.walive"): "World::is_alive is a merged view: compared for merged handles only (DESIGN, C02)",
 }
@@ -100,7 +101,9 @@ def put(ev, path, val):
 def scripts_for(dom, rng):
     if dom == "world":
         kinds = ["vec", "dense", "hash", "defvec", "null", "f_vec", "d_dense", "p_hash"]
-        return (G.random_scripts(7, 8, 60, [1, 2], 99000000, profile="mixed", sweep="full", kinds=kinds)
+        # (one storage, few entities, first: there the operations mostly find a component)
+        return (G.kind_churn_scripts(9, 1, 150, 99150000, kinds=["dense", "f_vec"])
+                + G.random_scripts(7, 8, 60, [1, 2], 99000000, profile="mixed", sweep="full", kinds=kinds)
                 + G.random_scripts(8, 6, 60, [1], 99100000, profile="store", sweep="full", kinds=["f_vec", "d_dense", "dense", "defvec"])), "World_Trace"
     if dom == "join":
         from lib import joins
